@@ -46,6 +46,10 @@ let run op a =
   | "value_from" -> out_on (value_from (List.hd (zs (g 0))) (zs (g 1)) (zs (g 2)) (iset (g 3)))
   | "threshold" -> out_iset (threshold_support (iset (g 0)) (List.combine (zs (g 1)) (List.map (fun i -> i <> 0) (ints (g 2)))))
   | "dropna" -> out_iset (dropna_support (List.combine (zs (g 0)) (List.map (fun i -> i <> 0) (ints (g 1)))))
+  | "get_range" -> let (i0, i1) = get_range (List.hd (zs (g 0))) (List.hd (zs (g 1))) (zs (g 2)) in out_n [i0; i1]
+  | "get_closest" -> out_n [get_closest (List.hd (zs (g 0))) (zs (g 1))]
+  | "trial_tensor" -> String.concat "|" (List.map out_z (to_trial_tensor (List.hd (ints (g 0)) <> 0) (z_of_int (-1)) (zs (g 1)) (zs (g 2)) (iset (g 3))))
+  | "trial_count" -> String.concat "|" (List.map out_n (trial_count_rows (zs (g 0)) (iset (g 1)) (List.hd (zs (g 2)))))
   | _ -> "ERR unknown op " ^ op
 
 let () =
